@@ -3,7 +3,12 @@
  *   B::read_binary returns normally iff the ghost says B's image at the current position is well-formed and
  *   completely present; it then consumes exactly verif_b_image_len bytes and returns the ghost value.
  * The round-trip / same-bytes facts about B itself are the induction hypothesis of the stack argument. */
-typedef struct { unsigned token; } B_OWN_T;
+/* The inner stack is array-like: its configuration is one extent (utility::nd_size<1>), an arbitrary value carried by
+ * the owning data (ghost field conf0); code that consults be.get_configuration() sees that arbitrary value. */
+typedef struct { size_t m_data[1]; } B_CONF_T;
+typedef struct { unsigned token; size_t conf0; } B_OWN_T;
+#define VERIF_B_CONF_IS_ND1 1
+static B_CONF_T backend_get_configuration(const B_OWN_T *b) { B_CONF_T c; c.m_data[0] = b->conf0; return c; }
 size_t verif_b_image_len;   /* ghost */
 _Bool verif_b_image_ok;     /* ghost */
 B_OWN_T verif_b_loaded;     /* ghost */
